@@ -88,6 +88,9 @@ func emailSubjects(t core.Tier) []any {
 	s = append(s, "a@b.co", "A.B!#$%&'*+/=?^_`{|}~-@Z9.example", "a@b..c", "a@.b", "a@b.", "a b@c.d", "a@b c.d", "é@b.c", "a@é.c", "a@b.c\n", "\na@b.c", "a@@b.c", "@b.c", "a@", "a(b)@c.d", "\"a\"@c.d", "a@[1.2.3.4]", "a@b_c.d",
 		// letters outside ASCII that Unicode case folding maps onto ASCII letters (long s, Kelvin sign): not part of the grammar
 		"ma\u017fter@doe.com", "john@\u212aelvin.com", "\u212a@b.co", "a@b.\u017fo", "a@\u017f.co", "a@b.c\u017f", "\u017f@\u017f.\u017f\u017f")
+	// grammatical addresses of 255 bytes and more (the grammar bounds labels, not the whole)
+	l63 := strings.Repeat("a", 63)
+	s = append(s, "user@"+l63+"."+l63+"."+l63+".example.com", strings.Repeat("u", 250)+"@b.co", "x@"+l63+"."+l63+"."+l63+"."+l63+".org", strings.Repeat("u", 243)+"@example.com")
 	emailCache[l] = s
 	return s
 }
@@ -628,6 +631,13 @@ func (c20) RunCase(c *core.Ctx) {
 	}
 	if c.Case == 7 && !c20Regexps(c) {
 		return
+	}
+	if c.Case == 8 {
+		c.Eval(30)
+		if problem, _ := dNamedTypeTests(); problem != "" {
+			c.Violation("test-decides-another-predicate|schemas-over-named-types", map[string]any{"observed": problem})
+			return
+		}
 	}
 	cfg := c20Configs[c.Case]
 	subjects := cfg.subjects(c.Tier)
